@@ -28,57 +28,62 @@ Theorem C12_probe_protected : forall h e p,
         fst (probe s e p) = UnsafeML g /\ spec_permits a g = false /\ ~ In g (snd (probe s e p)))).
 Proof. exact probe_protected. Qed.
 
-(* Which entry points are protected, in terms of what the user switched on (all histories):
-   pickle.loads, _pickle.load and _pickle.loads are the ML environment's iff one was activated
-   since the last removal (with exactly its additions), else the originals -- contexts and the
-   global check never touch them. *)
+(* Which entry points are protected, in terms of the mechanisms in force (ALL histories):
+   pickle.loads, _pickle.load, _pickle.loads and pickle.Unpickler are the ML environment's iff one
+   is in force (with exactly its additions), else the originals -- the global check never touches
+   them, and a context gives them back on exit exactly as it found them on entry.  ("In force" is
+   scoped, see [Hooks.ghost]: what is switched on or off inside a context ends with it.) *)
 Theorem C12_ml_covers_all_four : forall h,
   let s := hrun h_init h in
   let g := grun g_init h in
-  pls s = ml_binding (g_ml g) /\ cl s = ml_binding (g_ml g) /\ cls s = ml_binding (g_ml g).
+  pls s = ml_binding (g_ml g) /\ cl s = ml_binding (g_ml g) /\ cls s = ml_binding (g_ml g) /\
+  pu s = ml_binding (g_ml g).
 Proof. exact others_reachable. Qed.
 
-(* "While any protection is in force" for pickle.load, stated against the mechanisms the user
-   switched on rather than against the binding.
-   (a) If the global check or the ML environment was switched on and not removed since, then
-       pickle.load is a protection, and so is everything the open contexts will restore on exit.
-       Hypothesis [on_outside]: nothing is switched ON while a context is open (removals may
-       happen anywhere).  It cannot be dropped: the two refutation witnesses below are recorded
-       as known findings of the pinned tree.
-   (b) If moreover nothing is REMOVED while a context is open ([disciplined]), an open context
-       means pickle.load is protected too, and the model's context stack has the expected depth.
-       (Removal inside an open context is the case the property itself sets aside: "after
-       removal with no context open"; see C12_remove_with_open_context_observation.) *)
+(* "While any protection is in force" for pickle.load, stated against the mechanisms rather than
+   against the binding.
+   (a) ALL histories, no side condition: pickle.load is the checked loader or follows the ML
+       environment in force; if the global check or the ML environment is in force, pickle.load is
+       a protection.  (Before the repair of context.py this needed "nothing is switched on inside
+       a context": the former counterexamples are the regression Examples below.)
+   (b) If hooks are REMOVED only while no context is open ([rm_outside]), an open context means
+       pickle.load is protected too.  (Removal inside an open context is the case the property
+       itself sets aside: "after removal with no context open"; see
+       C12_remove_with_open_context_observation.) *)
 Theorem C12_switched_on_protected : forall h,
-  on_outside 0 h = true ->
   let s := hrun h_init h in
   let g := grun g_init h in
-  mech_on g -> pl s <> Orig /\ Forall (fun b => b <> Orig) (ctxs s).
+  (pl s = Checked \/ pl s = ml_binding (g_ml g)) /\
+  (mech_on g -> pl s <> Orig) /\
+  List.length (ctxs s) = g_depth g.
 Proof. exact switched_on_protected. Qed.
 
 Theorem C12_armed_protected : forall h,
-  disciplined 0 h = true ->
+  rm_outside 0 h = true ->
   let s := hrun h_init h in
   let g := grun g_init h in
   (mech_on g \/ 0 < g_depth g -> pl s <> Orig) /\
   List.length (ctxs s) = g_depth g.
 Proof. exact armed_protected. Qed.
 
-(* Leaving a context (either way), after a well-bracketed body of any length and nesting depth,
-   from ANY state s0: pickle.load and the stack of enclosing contexts are exactly what they were
-   immediately before the matching enter; neither the enter nor the leave touches the other
-   three bindings; and if the body did not activate / remove hooks, the complete four-binding
-   state is the one in force on entry. *)
+(* Leaving a context (either way), after a well-bracketed body of any length and nesting depth
+   that may arm, activate, remove, enter and leave whatever it likes, from ANY state s0: the
+   complete state -- every one of the five bindings and the stack of enclosing contexts -- is
+   exactly what it was immediately before the matching enter.  Nothing in force on entry is
+   dropped, nothing switched on inside is left behind, no half-restored state exists. *)
 Theorem C12_leave_restores_entry : forall s0 seg lv,
   balanced seg = true -> is_leave lv = true ->
-  let s1 := hrun s0 (HEnter :: seg) in
-  let s2 := hstep s1 lv in
-  pl s2 = pl s0 /\ ctxs s2 = ctxs s0 /\
-  others (hstep s0 HEnter) = others s0 /\ others s2 = others s1 /\
-  (quiet seg = true -> others s2 = others s0).
-Proof. exact leave_restores. Qed.
+  let s2 := hstep (hrun s0 (HEnter :: seg)) lv in
+  s2 = s0 /\ (forall e, binding_of s2 e = binding_of s0 e) /\ ctxs s2 = ctxs s0.
+Proof. exact leave_restores_bindings. Qed.
 
-(* After a removal with no context open all four bindings are the originals, and they stay so
+(* ... hence inside any history a completed context leaves no trace *)
+Theorem C12_completed_context_no_trace : forall pre seg lv rest,
+  balanced seg = true -> is_leave lv = true ->
+  hrun h_init (pre ++ HEnter :: seg ++ lv :: rest) = hrun h_init (pre ++ rest).
+Proof. exact leave_restores_history. Qed.
+
+(* After a removal with no context open all five bindings are the originals, and they stay so
    for as long as nothing is switched on again. *)
 Theorem C12_remove_restores_all : forall h rest,
   let s := hrun h_init (h ++ [HRemove]) in
@@ -95,66 +100,75 @@ Definition sink : gname := ("verif_sink", "record").
 Definition od : gname := ("fractions", "Fraction").
 
 Example C12_nonvacuous_nesting :
-  let body := [HEnter; HProbe PLoad (mkP true [sink]); HEnter; HLeaveExc; HLeave; HArm] in
-  balanced body = true /\ quiet body = true /\
+  let body := [HEnter; HProbe PLoad (mkP true [sink]); HActivate []; HEnter; HRemove; HLeaveExc; HLeave;
+               HArm; HMake] in
+  balanced body = true /\
   let s0 := hrun h_init [HActivate [od]] in
   pl s0 = ML [od] /\
   pl (hrun s0 (HEnter :: body)) = Checked /\
-  pl (hstep (hrun s0 (HEnter :: body)) HLeaveExc) = ML [od] /\
+  pls (hrun s0 (HEnter :: body)) = ML [od] /\
+  hstep (hrun s0 (HEnter :: body)) HLeaveExc = s0 /\
   probe (hrun s0 (HEnter :: body)) PLoad (mkP false [od; sink]) = (UnsafeML sink, [od]).
 Proof. vm_compute. repeat split. Qed.
 
-Example C12_nonvacuous_disciplined :
-  let h := [HArm; HEnter; HEnter; HLeave; HLeaveExc; HRemove; HActivate [od]; HEnter] in
-  disciplined 0 h = true /\ g_depth (grun g_init h) = 1 /\ g_ml (grun g_init h) = Some [od] /\
-  pl (hrun h_init h) = Checked /\ ctxs (hrun h_init h) = [ML [od]].
+Example C12_nonvacuous_rm_outside :
+  let h := [HArm; HEnter; HActivate [od]; HEnter; HLeave; HLeaveExc; HRemove; HMake; HEnter; HArm] in
+  rm_outside 0 h = true /\ g_depth (grun g_init h) = 1 /\ g_armed (grun g_init h) = true /\
+  pl (hrun h_init h) = Checked /\ map s_pl (ctxs (hrun h_init h)) = [Orig] /\
+  rm_outside 0 [HEnter; HRemove] = false.
 Proof. vm_compute. repeat split. Qed.
 
-Example C12_nonvacuous_on_outside :
-  let h := [HArm; HEnter; HRemove; HLeave; HActivate [od]; HEnter; HEnter; HRemove; HLeaveExc] in
-  on_outside 0 h = true /\ disciplined 0 h = false /\
-  pl (hrun h_init [HArm; HEnter; HRemove; HLeave]) = Checked.
+Example C12_nonvacuous_mech_on :
+  let h := [HEnter; HActivate [od]; HEnter; HRemove; HLeave] in
+  g_ml (grun g_init h) = Some [od] /\ pl (hrun h_init h) = ML [od] /\ pu (hrun h_init h) = ML [od] /\
+  g_depth (grun g_init h) = 1.
 Proof. vm_compute. repeat split. Qed.
 
 Example C12_nonvacuous_remove :
   let s := hrun h_init ([HArm; HEnter; HActivate []; HLeave] ++ [HRemove]) in
-  ctxs s = [] /\ forallb inert [HProbe PLoads (mkP true [sink]); HRemove; HLeave] = true.
+  ctxs s = [] /\ forallb inert [HProbe PLoads (mkP true [sink]); HRemove; HLeave; HMake] = true.
 Proof. vm_compute. repeat split. Qed.
 
-(* ---- witnesses: what does NOT hold on the pinned tree ---- *)
+(* ---- regression: the two histories that were findings of the tree before the repair of
+   fickling/context.py (KNOWN_FINDINGS C12-activate-inside-context, C12-arm-inside-context) ---- *)
 
-(* The ML environment activated inside an open context is torn by the leave: pickle.load goes
-   back to the (unprotected) binding saved on entry while the other three entry points stay
-   protected; the environment was never deactivated, yet a pickle over a non-allow-listed global
-   runs through pickle.load.  (KNOWN_FINDINGS C12-activate-inside-context.) *)
-Lemma C12_armed_protected_refuted_activate_in_ctx :
+(* The ML environment activated inside an open context ends with the context as a whole: all five
+   entry points are what they were on entry -- no state in which pickle.load is unprotected while
+   the other entry points still are the environment's.  (Formerly
+   C12_armed_protected_refuted_activate_in_ctx: pl = Orig /\ pls = ML [].) *)
+Example C12_regression_activate_in_ctx :
   let h := [HEnter; HActivate []; HLeave] in
-  on_outside 0 h = false /\
-  g_ml (grun g_init h) = Some [] /\
-  pl (hrun h_init h) = Orig /\ pls (hrun h_init h) = ML [] /\
-  probe (hrun h_init h) PLoad (mkP true [sink]) = (Returned, [sink]) /\
-  probe (hrun h_init h) PLoads (mkP true [sink]) = (UnsafeML sink, []).
-Proof. vm_compute. repeat split. Qed.
+  hrun h_init h = h_init /\
+  g_ml (grun g_init h) = None /\
+  (forall e, binding_of (hrun h_init h) e = Orig) /\
+  (* ... and while the block is open every entry point is the environment's *)
+  (forall e, binding_of (hrun h_init [HEnter; HActivate []]) e = ML []) /\
+  probe (hrun h_init [HEnter; HActivate []]) PLoad (mkP true [sink]) = (UnsafeML sink, []) /\
+  (* an enclosing environment is re-instated, not dropped *)
+  hrun h_init [HActivate [od]; HEnter; HActivate []; HLeave] = hrun h_init [HActivate [od]].
+Proof. vm_compute. repeat split; intros []; reflexivity. Qed.
 
-(* The global check switched on inside an open context is dropped by the leave.
-   (KNOWN_FINDINGS C12-arm-inside-context.) *)
-Lemma C12_armed_protected_refuted_arm_in_ctx :
+(* The global check armed inside an open context ends with the context: the state after the leave
+   is the entry state, as "restores precisely the protection that was in force on entry ... nor
+   leaving one behind" demands; under the scoped reading of "in force" no protection is in force
+   afterwards, so the first clause is not concerned. *)
+Example C12_regression_arm_in_ctx :
   let h := [HEnter; HArm; HLeave] in
-  on_outside 0 h = false /\
-  g_armed (grun g_init h) = true /\
-  pl (hrun h_init h) = Orig /\
-  probe (hrun h_init h) PLoad (mkP true [sink]) = (Returned, [sink]).
+  hrun h_init h = h_init /\
+  g_armed (grun g_init h) = false /\
+  probe (hrun h_init [HEnter; HArm]) PLoad (mkP true [sink]) = (UnsafeAnalysis, []) /\
+  hrun h_init [HArm; HEnter; HArm; HLeave] = hrun h_init [HArm].
 Proof. vm_compute. repeat split. Qed.
 
-(* [quiet] cannot be dropped from the whole-state clause: same history. *)
-Lemma C12_whole_state_restore_refuted :
-  let seg := [HActivate []] in
-  balanced seg = true /\ quiet seg = false /\
-  others (hstep (hrun h_init (HEnter :: seg)) HLeave) <> others h_init.
-Proof. vm_compute. repeat split. discriminate. Qed.
+(* A manager constructed early and entered later restores what was in force when it was ENTERED
+   (construction saves nothing). *)
+Example C12_regression_early_construction :
+  hrun h_init [HMake; HArm; HEnter; HLeave] = hrun h_init [HArm] /\
+  pl (hrun h_init [HMake; HArm; HEnter; HLeave]) = Checked.
+Proof. vm_compute. repeat split. Qed.
 
 (* Why "with no context open" is part of the property: a removal while a context is open is
-   undone for pickle.load by the later leave (the leave restores what was in force on entry). *)
+   undone by the later leave (the leave restores what was in force on entry). *)
 Lemma C12_remove_with_open_context_observation :
   let h := [HArm; HEnter; HRemove] in
   all_orig (hrun h_init h) /\ ctxs (hrun h_init h) <> [] /\
@@ -164,7 +178,8 @@ Proof. vm_compute. repeat split. discriminate. Qed.
 (* The global check and the contexts cover pickle.load only (documented coverage). *)
 Lemma C12_global_check_covers_load_only_observation :
   probe (hrun h_init [HArm]) PLoad (mkP true [sink]) = (UnsafeAnalysis, []) /\
-  probe (hrun h_init [HArm]) PLoads (mkP true [sink]) = (Returned, [sink]).
+  probe (hrun h_init [HArm]) PLoads (mkP true [sink]) = (Returned, [sink]) /\
+  probe (hrun h_init [HArm]) PUnp (mkP true [sink]) = (Returned, [sink]).
 Proof. vm_compute. repeat split. Qed.
 
 Print Assumptions C12_probe_protected.
@@ -172,5 +187,6 @@ Print Assumptions C12_ml_covers_all_four.
 Print Assumptions C12_switched_on_protected.
 Print Assumptions C12_armed_protected.
 Print Assumptions C12_leave_restores_entry.
+Print Assumptions C12_completed_context_no_trace.
 Print Assumptions C12_remove_restores_all.
 Print Assumptions C12_exception_exit_same.
